@@ -165,7 +165,7 @@ def gen_type(rng: random.Random, depth: int, comparable=False, annots=True, fiel
         t = scalar()
     else:
         kinds = ['pair', 'pair', 'pair', 'option', 'or'] + ([] if comparable else ['list', 'set', 'map', 'list', 'map'] + (['lambda'] if lambdas else [])
-                                                             + (['ticket'] if tickets else []))
+                                                             + (['ticket', 'big_map'] if tickets else []))
         k = rng.choice(kinds)
         sub = lambda **kw: gen_type(rng, depth - 1, comparable=comparable, annots=annots, lambdas=lambdas, tickets=tickets, **kw)  # noqa: E731
         if k == 'pair':
@@ -180,12 +180,17 @@ def gen_type(rng: random.Random, depth: int, comparable=False, annots=True, fiel
                     t = {'prim': 'pair', 'args': [items[i], t]}
                     if i > 0 and annots:
                         t = _annot(rng, t)
+        elif k == 'big_map':
+            t = {'prim': 'big_map', 'args': [gen_type(rng, min(depth - 1, 2), comparable=True, annots=annots, field_ok=False),
+                                             gen_type(rng, depth - 1, annots=annots, field_ok=False, lambdas=lambdas)]}
         elif k == 'ticket':
             t = {'prim': 'ticket', 'args': [gen_type(rng, min(depth - 1, 2), comparable=True, annots=False, field_ok=False)]}
         elif k == 'option':
-            t = {'prim': 'option', 'args': [sub(field_ok=False)]}
+            t = {'prim': 'option', 'args': [sub(field_ok=False) if rng.random() > 0.05 else {'prim': 'never'}]}
         elif k == 'or':
             t = {'prim': 'or', 'args': [sub(), sub()]}
+            if rng.random() < 0.12:  # never has no values: the other branch is the only inhabited one
+                t['args'][rng.randrange(2)] = {'prim': 'never'}
         elif k == 'list':
             t = {'prim': 'list', 'args': [sub(field_ok=False)]}
         elif k == 'set':
@@ -391,9 +396,12 @@ def value_has_lambda_push(v: tuple) -> bool:
 def gen_value(rng: random.Random, n: tuple, sha: ShaTable, size: int = 4, domain_lambdas: bool = True) -> tuple:
     p = n[0]
     if p == 'option':
-        return ('none',) if rng.random() < 0.3 else ('some', gen_value(rng, n[1], sha, size, domain_lambdas))
+        return ('none',) if rng.random() < 0.3 or n[1][0] == 'never' else ('some', gen_value(rng, n[1], sha, size, domain_lambdas))
     if p == 'or':
-        return ('left', gen_value(rng, n[1], sha, size, domain_lambdas)) if rng.random() < 0.5 else ('right', gen_value(rng, n[2], sha, size, domain_lambdas))
+        left = rng.random() < 0.5
+        if n[1][0] == 'never' or n[2][0] == 'never':
+            left = n[2][0] == 'never'
+        return ('left', gen_value(rng, n[1], sha, size, domain_lambdas)) if left else ('right', gen_value(rng, n[2], sha, size, domain_lambdas))
     if p == 'pair':
         return ('pair', gen_value(rng, n[1], sha, size, domain_lambdas), gen_value(rng, n[2], sha, size, domain_lambdas))
     if p == 'list':
@@ -410,6 +418,10 @@ def gen_value(rng: random.Random, n: tuple, sha: ShaTable, size: int = 4, domain
             v = gen_value(rng, n[1], sha, 2, domain_lambdas)
             items[sort_key(v)] = (v, gen_value(rng, n[2], sha, max(size - 1, 1), domain_lambdas))
         return ('map', [items[k] for k in sorted(items)])
+    if p == 'big_map':
+        if rng.random() < 0.4:
+            return ('bmid', rng.choice([0, 1, 17, 2 ** 31, rng.getrandbits(20), -1]))
+        return gen_value(rng, ('map', n[1], n[2]), sha, size, domain_lambdas)
     if p == 'ticket':
         ep = rng.choice([None, None, None, 'a', 'mint'])
         return ('ticket', rng.choice(['KT1', 'KT1', 'tz1', 'sr1']), gen_hash20(rng), None if ep is None else ep.encode(),
@@ -474,7 +486,7 @@ def readable_json(v: tuple, sha: ShaTable | None, rng: random.Random | None = No
         return {'prim': 'Unit'}
     if k == 'bool':
         return {'prim': 'True' if v[1] else 'False'}
-    if k in ('int', 'ts', 'fr'):
+    if k in ('int', 'ts', 'fr', 'bmid'):
         return {'int': str(v[1])}
     if k == 'str':
         return {'string': v[1].decode('ascii')}
@@ -531,6 +543,8 @@ def coq_val(v: tuple) -> str:
         return f'(VTimestamp {cZ(v[1])})'
     if k == 'fr':
         return f'(VBlsFr {cZ(v[1])})'
+    if k == 'bmid':
+        return f'(VBigMapId {cZ(v[1])})'
     if k == 'str':
         return f'(VString {chex(v[1])})'
     if k == 'bytes':
@@ -585,6 +599,8 @@ def ast_of_obj(o: Any) -> tuple:
         return ('left', ast_of_obj(o.items[0])) if o.is_left() else ('right', ast_of_obj(o.items[1]))
     if isinstance(o, (T.ListType, T.SetType)):
         return ('list', [ast_of_obj(x) for x in o.items])
+    if isinstance(o, T.BigMapType) and o.ptr is not None and not o.items:
+        return ('bmid', int(o.ptr))
     if isinstance(o, T.MapType):
         return ('map', [(ast_of_obj(a), ast_of_obj(b)) for a, b in o.items])
     if isinstance(o, T.LambdaType):
@@ -673,7 +689,7 @@ def lam_positions(n: tuple, m: Any):
         if isinstance(m, list):
             for x in m:
                 yield from lam_positions(n[1], x)
-    elif p == 'map':
+    elif p in ('map', 'big_map'):
         if isinstance(m, list):
             for x in m:
                 if isinstance(x, dict) and x.get('prim') == 'Elt' and len(x.get('args', [])) == 2:
